@@ -703,3 +703,108 @@ Lemma i2u_u2i_partial c s : valid_text s = true -> mem PCT s = false ->
   (exists q, i2u c s = Some q /\ u2i c q = iri_normal c s)
   /\ u2i c (iri_normal c s) = iri_normal c s.
 Proof. intros Hv Hp. split; [exact (u2i_of_i2u c s Hv Hp)|exact (u2i_normal_fixpoint c s Hp)]. Qed.
+
+(* ------------------------------------------------------------------ get_host: default port *)
+
+Lemma starts_with_spec p : forall s, starts_with p s = true -> exists t, s = p ++ t.
+Proof.
+  induction p as [|x p IH]; intros s H; [exists s; reflexivity|].
+  destruct s as [|y s]; [discriminate|]. cbn [starts_with] in H. apply andb_prop in H. destruct H as [Hx Hp].
+  apply N.eqb_eq in Hx. subst y. destruct (IH s Hp) as [t ->]. exists t. reflexivity.
+Qed.
+
+Lemma starts_with_app p t : starts_with p (p ++ t) = true.
+Proof. induction p as [|x p IH]; [reflexivity|]. cbn [app starts_with]. rewrite N.eqb_refl, IH. reflexivity. Qed.
+
+Lemma ends_with_spec suf s : ends_with suf s = true -> exists h, s = h ++ suf.
+Proof.
+  unfold ends_with. intro H. destruct (starts_with_spec _ _ H) as [t Ht].
+  exists (rev t). rewrite <- (rev_involutive s), Ht, rev_app_distr, rev_involutive. reflexivity.
+Qed.
+
+Lemma ends_with_app h suf : ends_with suf (h ++ suf) = true.
+Proof. unfold ends_with. rewrite rev_app_distr. apply starts_with_app. Qed.
+
+Lemma cut_suffix (h suf : list N) : firstn (length (h ++ suf) - length suf) (h ++ suf) = h.
+Proof.
+  rewrite app_length. replace (length h + length suf - length suf)%nat with (length h + 0)%nat by lia.
+  rewrite firstn_app_2. cbn [firstn]. apply app_nil_r.
+Qed.
+
+Definition rule_wf (r : list (list N) * list N * nat) : bool := Nat.eqb (length (snd (fst r))) (snd r).
+
+(* whatever the rules: the result is the host itself, or the host without the suffix of a rule
+   whose scheme set holds the scheme -- nothing else is ever cut *)
+Lemma strip_rules_sound rules scheme host : forallb rule_wf rules = true ->
+  strip_rules rules scheme host = host
+  \/ exists schemes suf k, In (schemes, suf, k) rules /\ existsb (list_eqb scheme) schemes = true
+                          /\ host = strip_rules rules scheme host ++ suf.
+Proof.
+  induction rules as [|[[schemes suf] k] r IH]; intro Hwf; [left; reflexivity|].
+  cbn [forallb] in Hwf. apply andb_prop in Hwf. destruct Hwf as [Hr Hwf]. cbn [strip_rules].
+  destruct (existsb (list_eqb scheme) schemes && ends_with suf host) eqn:E.
+  - right. apply andb_prop in E. destruct E as [Es Ee]. exists schemes, suf, k.
+    split; [left; reflexivity|]. split; [exact Es|].
+    destruct (ends_with_spec _ _ Ee) as [h ->]. unfold rule_wf in Hr. cbn [fst snd] in Hr.
+    apply Nat.eqb_eq in Hr. subst k. rewrite cut_suffix. reflexivity.
+  - destruct (IH Hwf) as [H|[s2 [suf2 [k2 [Hin [Hs Hh]]]]]]; [left; exact H|].
+    right. exists s2, suf2, k2. split; [right; exact Hin|]. split; assumption.
+Qed.
+
+(* the rules of the current source are the two of the property, well-formed (k = len suffix) *)
+Definition HTTP : str := [104; 116; 116; 112].
+Definition WS : str := [119; 115].
+Definition HTTPS : str := [104; 116; 116; 112; 115].
+Definition WSS : str := [119; 115; 115].
+Definition P80 : str := [58; 56; 48].
+Definition P443 : str := [58; 52; 52; 51].
+
+Lemma port_rules_pinned : default_port_rules = [([HTTP; WS], P80, 3%nat); ([HTTPS; WSS], P443, 4%nat)].
+Proof. reflexivity. Qed.
+
+Lemma existsb_two scheme a b : existsb (list_eqb scheme) [a; b] = true -> scheme = a \/ scheme = b.
+Proof.
+  cbn [existsb]. rewrite orb_false_r. intro H. apply orb_prop in H.
+  destruct H as [H|H]; apply list_eqb_eq in H; auto.
+Qed.
+
+Lemma strip_default_port_sound scheme host :
+  let r := strip_default_port scheme host in
+  r = host
+  \/ (host = r ++ P80 /\ (scheme = HTTP \/ scheme = WS))
+  \/ (host = r ++ P443 /\ (scheme = HTTPS \/ scheme = WSS)).
+Proof.
+  cbv zeta. unfold strip_default_port.
+  destruct (strip_rules_sound default_port_rules scheme host eq_refl) as [H|[schemes [suf [k [Hin [Hs Hh]]]]]];
+    [left; exact H|]. right. rewrite port_rules_pinned in Hin.
+  destruct Hin as [Hin|[Hin|[]]]; inversion Hin; subst schemes suf k.
+  - left. split; [exact Hh|apply existsb_two; exact Hs].
+  - right. split; [exact Hh|apply existsb_two; exact Hs].
+Qed.
+
+(* and the default port is removed when it is there *)
+Lemma strip_default_port_complete h :
+  strip_default_port HTTP (h ++ P80) = h /\ strip_default_port WS (h ++ P80) = h
+  /\ strip_default_port HTTPS (h ++ P443) = h /\ strip_default_port WSS (h ++ P443) = h.
+Proof.
+  unfold strip_default_port. rewrite port_rules_pinned.
+  assert (E80 : ends_with P80 (h ++ P80) = true) by apply ends_with_app.
+  assert (E443 : ends_with P443 (h ++ P443) = true) by apply ends_with_app.
+  repeat split.
+  - cbn [strip_rules]. replace (existsb (list_eqb HTTP) [HTTP; WS]) with true by (vm_compute; reflexivity).
+    rewrite E80. cbn [andb]. apply (cut_suffix h P80).
+  - cbn [strip_rules]. replace (existsb (list_eqb WS) [HTTP; WS]) with true by (vm_compute; reflexivity).
+    rewrite E80. cbn [andb]. apply (cut_suffix h P80).
+  - cbn [strip_rules]. replace (existsb (list_eqb HTTPS) [HTTP; WS]) with false by (vm_compute; reflexivity).
+    replace (existsb (list_eqb HTTPS) [HTTPS; WSS]) with true by (vm_compute; reflexivity).
+    rewrite E443. cbn [andb]. apply (cut_suffix h P443).
+  - cbn [strip_rules]. replace (existsb (list_eqb WSS) [HTTP; WS]) with false by (vm_compute; reflexivity).
+    replace (existsb (list_eqb WSS) [HTTPS; WSS]) with true by (vm_compute; reflexivity).
+    rewrite E443. cbn [andb]. apply (cut_suffix h P443).
+Qed.
+
+(* 10.0.0.80:80 under http keeps its last octet *)
+Lemma get_host_example :
+  get_host HTTP (Some [49; 48; 46; 48; 46; 48; 46; 56; 48; 58; 56; 48]) None = [49; 48; 46; 48; 46; 48; 46; 56; 48]
+  /\ get_host HTTPS None (Some ([50; 48; 48; 49; 58; 58; 56], Some [52; 52; 51])) = [91; 50; 48; 48; 49; 58; 58; 56; 93].
+Proof. vm_compute. split; reflexivity. Qed.
